@@ -14,7 +14,20 @@ NAMES = ["q1", "q2", "c1", "o1"]
 
 def column(rng, kind, n, y):
     shape = rng.choice(["constant", "all_nan", "near_unique", "many_rare", "spike", "ties", "plain", "two_values",
-                        "rare_tail"])
+                        "rare_tail", "nan_one_class", "rare_top"])
+    if shape == "nan_one_class":
+        # observed only inside one target class (missing everywhere else), >= 2 frequent modalities
+        cls0 = rng.choice(sorted(set(y)))
+        k = rng.randint(2, 3)
+        if kind == "quant":
+            col = [float(rng.randrange(k)) if t == cls0 else NAN for t in y]
+            return col, None, shape
+        col = [["a", "b", "c"][rng.randrange(k)] if t == cls0 else NAN for t in y]
+        order = None
+        if kind == "ordinal":
+            order = ["a", "b", "c"][:k] + (["d"] if rng.random() < 0.3 else [])
+            rng.shuffle(order)
+        return col, order, shape
     if kind == "quant":
         if shape == "constant":
             col = [3.0] * n
@@ -34,6 +47,12 @@ def column(rng, kind, n, y):
             col = [float(rng.randint(0, 1)) for _ in range(n)]
         elif shape == "rare_tail":
             col = [float(min(rng.randint(0, 12), rng.randint(0, 12))) for _ in range(n)]
+        elif shape == "rare_top":
+            # discrete feature whose largest value is rarer than min_freq (an under-populated last bucket)
+            k = rng.randint(2, 5)
+            col = [float(rng.randrange(k)) for _ in range(n)]
+            for i in rng.sample(range(n), max(1, n // rng.choice([12, 20, 40]))):
+                col[i] = float(k + rng.randint(0, 3))
         else:
             col = [round(rng.gauss(0, 10), 1) for _ in range(n)]
         order = None
@@ -65,7 +84,23 @@ def column(rng, kind, n, y):
             rng.shuffle(order)
             if not order:
                 order = ["a"]
-    if shape not in ("all_nan",) and rng.random() < 0.3:
+            if rng.random() < 0.25 and shape != "near_unique":
+                # numeric-valued ordinal feature (StringDiscretizer path); ranking given in string form, or
+                # (numrank) with the raw numbers
+                flt = rng.random() < 0.5
+                code = {v: (float(i) + (0.5 if flt and i % 3 == 2 else 0.0) if flt else i + 1)
+                        for i, v in enumerate(sorted(set(order)))}
+                col = [code.get(v, v) if isinstance(v, str) else v for v in col]
+                if rng.random() < 0.35:
+                    order = [code[v] for v in order]
+                    shape += "+numrank"
+                else:
+                    order = [str(int(code[v])) if float(code[v]).is_integer() else str(code[v]) for v in order]
+                    shape += "+numord"
+    if shape == "rare_top" and rng.random() < 0.6:
+        for i in rng.sample(range(n), max(1, n // rng.choice([3, 10]))):
+            col[i] = NAN
+    elif shape not in ("all_nan",) and rng.random() < 0.3:
         for i in rng.sample(range(n), max(1, n // rng.choice([3, 10, 20]))):
             col[i] = NAN
     return col, order, shape
@@ -94,8 +129,19 @@ def gen_case(rng):
         kind = rng.choice(kinds)
         col, order, shape = column(rng, kind, n, y)
         feats[name] = {"kind": kind, "col": encs(col), "order": encs(order) if order else None, "shape": shape}
-    return {"klass": klass, "y": y, "features": feats, "min_freq": rng.choice([0.02, 0.05, 0.1, 0.2, 0.3, 0.5]),
-            "max_n_mod": rng.randint(2, 5), "dropna": rng.random() < 0.6,
+    max_n_mod = rng.randint(2, 5)
+    # keep the number of tested combinations per feature small (near-unique columns with a tiny min_freq
+    # give C(m-1, max_n_mod-1) groupings per class)
+    min_freq = rng.choice([0.02, 0.05, 0.1, 0.2, 0.3, 0.5])
+    for f in feats.values():
+        m = min(len({repr(v) for v in f["col"]}), int(1 / min_freq) + 1)
+        while max_n_mod > 2 and math.comb(max(m - 1, 0), max_n_mod - 1) > 4000:
+            max_n_mod -= 1
+    kwargs = rng.choice([{}, {}, {}, {"str_nan": "MISSING"}, {"str_default": "RARE"},
+                         {"str_nan": "MISSING", "str_default": "RARE"}])
+    return {"klass": klass, "y": y, "features": feats, "min_freq": min_freq,
+            "kwargs": kwargs,
+            "max_n_mod": max_n_mod, "dropna": rng.random() < 0.6,
             "output_dtype": rng.choice(["float", "str"]), "sort_by": rng.choice(["tschuprowt", "cramerv"]),
             "min_freq_mod": rng.choice([None, None, 0.05, 0.3])}
 
@@ -118,22 +164,58 @@ def make_obj(case):
     ordi = [n for n, f in fs.items() if f["kind"] == "ordinal"]
     vo = {n: decs(fs[n]["order"]) for n in ordi}
     k = case["klass"]
+    extra = dict(case.get("kwargs") or {})
     if k == "Discretizer":
         return Discretizer(quantitative_features=quant, qualitative_features=categ, ordinal_features=ordi,
-                           values_orders=vo, min_freq=case["min_freq"], copy=True)
+                           values_orders=vo, min_freq=case["min_freq"], copy=True, **extra)
     if k == "QuantitativeDiscretizer":
-        return QuantitativeDiscretizer(quantitative_features=quant, min_freq=case["min_freq"], copy=True)
+        return QuantitativeDiscretizer(quantitative_features=quant, min_freq=case["min_freq"], copy=True,
+                                       **{a: b for a, b in extra.items() if a == "str_nan"})
     if k == "QualitativeDiscretizer":
         return QualitativeDiscretizer(qualitative_features=categ, ordinal_features=ordi, values_orders=vo,
-                                      min_freq=case["min_freq"], copy=True)
+                                      min_freq=case["min_freq"], copy=True, **extra)
     kw = dict(min_freq=case["min_freq"], quantitative_features=quant, qualitative_features=categ,
               ordinal_features=ordi, values_orders=vo, max_n_mod=case["max_n_mod"], dropna=case["dropna"],
-              output_dtype=case["output_dtype"], min_freq_mod=case["min_freq_mod"], copy=True)
+              output_dtype=case["output_dtype"], min_freq_mod=case["min_freq_mod"], copy=True, **extra)
     if k == "BinaryCarver":
         return BinaryCarver(sort_by=case["sort_by"], **kw)
     if k == "MulticlassCarver":
         return MulticlassCarver(sort_by=case["sort_by"], **kw)
     return ContinuousCarver(**kw)
+
+
+def _same(a, b):
+    if isinstance(a, str) or isinstance(b, str):
+        return isinstance(a, str) and isinstance(b, str) and a == b
+    if C.is_nan(a) or C.is_nan(b):
+        return C.is_nan(a) and C.is_nan(b)
+    return a == b
+
+
+def py_partition_issue(p):
+    """python twin of the Coq invariant (unique leaders, keys = content keys, disjoint groups, each leader
+    in its own group, training values covered); only used to word the failure and to name the finding"""
+    keys = decs(p["keys"])
+    content = [(dec(k), decs(vs)) for k, vs in p["content"]]
+    for i, a in enumerate(keys):
+        if any(_same(a, b) for b in keys[i + 1:]):
+            return f"leader {a!r} listed twice"
+    ck = [k for k, _ in content]
+    if len(ck) != len(keys) or any(not any(_same(k, c) for c in ck) for k in keys):
+        return f"leaders {keys!r} differ from the content keys {ck!r}"
+    seen = []
+    for k, vs in content:
+        if not any(_same(k, v) for v in vs):
+            return f"leader {k!r} is not in its own group {vs!r}"
+        for v in vs:
+            if any(_same(v, w) for w in seen):
+                return f"value {v!r} belongs to two groups (or twice to one)"
+            seen.append(v)
+    if not p["quant"]:
+        for v in decs(p["train"]):
+            if not any(_same(v, w) for w in seen):
+                return f"training value {v!r} is in no group"
+    return None
 
 
 class C08(Prop):
@@ -214,7 +296,7 @@ class C08(Prop):
                     distinct.append(v)
             per[f] = {"quant": obj.input_dtypes[f] == "float", "keys": encs(list(g)),
                       "content": [[enc(k), encs(v)] for k, v in g.content.items()],
-                      "train": encs(distinct), "has_nan": len(nonmiss) != len(colv), "str_nan": obj.str_nan}
+                      "train": encs(distinct), "has_nan": len(nonmiss) != len(colv), "str_nan": obj.str_nan, "raw": raw}
         out["per"] = per
         # summary / history / transform
         try:
@@ -263,6 +345,10 @@ class C08(Prop):
         for raw, ok in out.get("untouched", {}).items():
             if not ok:
                 return False, f"dropped feature {raw} is modified by transform"
+        for f, p in out["per"].items():
+            bad = py_partition_issue(p)
+            if bad:
+                return False, f"values_orders[{f}] is not a well-formed partition: {bad}"
         return True, ""
 
     def coq_case(self, out):
@@ -294,6 +380,11 @@ class C08(Prop):
 
     def finding_signatures(self, case, out, msg):
         sigs = []
+        if "is not a well-formed partition" in msg or msg.startswith("property predicate evaluated in Coq"):
+            # ordinal ranking given with the raw NUMBERS of a numeric-valued ordinal feature
+            for f, p in (out.get("per") or {}).items():
+                if py_partition_issue(p) and case["features"].get(p.get("raw", f), {}).get("shape", "").endswith("+numrank"):
+                    sigs.append("numeric_ordinal_ranking_ill_formed_partition")
         if "expected frequencies has a zero element" in out.get("error", ""):
             sigs.append("chi2_zero_expected_frequency")
         if msg.startswith("history() lists"):
